@@ -21,6 +21,15 @@ def RTab.app (t : RTab) (a : V) : Rat :=
 
 instance : RewardFn RTab V := ⟨RTab.app⟩
 
+/-- Python's `v[i]` on a canonical value: works for lists/tuples (`["l",[…]]`) and strings (`["s","…"]`) within range -/
+def idxCanon (v : V) (i : Nat) : Option V :=
+  match Json.parse v with
+  | .ok (.arr #[.str "l", .arr xs]) => (xs[i]?).map Json.compress
+  | .ok (.arr #[.str "s", .str t]) => (t.toList[i]?).map (fun ch => (Json.arr #[Json.str "s", Json.str (String.singleton ch)]).compress)
+  | _ => none
+
+instance : Subscript V := ⟨idxCanon⟩
+
 def parseFld (j : Json) : Except String (Fld V RTab) := do
   let t ← str (← field j "t")
   match t with
@@ -223,6 +232,9 @@ def handle (req : Json) : Except String Json := do
     | .ok r => outJson (.ok (r.1, r.2.1, r.2.2.1))
     | .rejected ks => outJson (.rejected ks)
     | .crashed e => outJson (.crashed e)
+  let modelIB : Json := match bs with
+    | some n => outJson (evaluateIB cfg (scriptedI script L.hasScore) n env s0)
+    | none => Json.null
   -- PMF learner: SafeLearner(learner, seed) draws with CobaRandom(seed), fresh for every evaluation
   let modelP : Json ← match lj.getObjVal? "pmf_seed" with
     | .ok sj => do
@@ -234,7 +246,7 @@ def handle (req : Json) : Except String Json := do
         | .crashed e => outJson (.crashed e))
     | .error _ => pure Json.null
   pure (obj [("model", outJson model), ("hyp", Json.bool hyp), ("spec", ofOpt id spec), ("specB", ofOpt id specB),
-             ("modelI", modelI), ("modelP", modelP),
+             ("modelI", modelI), ("modelIB", modelIB), ("modelP", modelP),
              ("history", hist),
              ("unbatched", outJson modelU),
              ("required", ofList Json.str (required cfg L.hasScore)),
